@@ -9,6 +9,7 @@ package main
 //   token-mutation     near-grammatical token-level mutations of valid programs
 //   arbitrary-bytes    random bytes, token soup, non-ASCII bytes in identifiers/strings/comments
 //   selectors          valid / invalid / failing / control-flow root selectors
+//   panic-prone-operations  every operation of the language on edge operands in every evaluating context
 //
 // Every case compares class,out with the model; the oracle flags any class
 // outside ok/syntax/runtime/json by itself (core.go flags timeouts/crashes).
@@ -1162,6 +1163,349 @@ func c01GenSelectors(r *rand.Rand, tier string, emit func(Case)) {
 	}
 }
 
+// ---------------------------------------------------------------------------
+// family 5: panic-prone operations on edge operands
+//
+// Every operator, method, builtin, index form, printf width form, literal,
+// loop header and match form of the language applied to edge operands (0, -0,
+// fractions inside (-1, 1), the int64 / fill / width limits, 1e300, NaN and
+// +-Inf as the language can produce them, empty and nested and cyclic
+// containers, unset, null, booleans, regexes, function values, long strings),
+// in every syntactic context that evaluates an expression.  The Go code
+// truncates, indexes, slices, repeats and dereferences with these values; each
+// of those is a potential Go panic (integer divide by zero, index out of
+// range, nil dereference, negative Repeat count).
+
+// c01EdgePool: C05's operand pool plus the values at which Go's integer
+// conversion, slice indexing and strings.Repeat change behaviour.
+func c01EdgePool() []opnd {
+	p := append([]opnd{}, c05Pool()...)
+	p = append(p, []opnd{
+		{"N", "0.5", "0.5"}, {"N", "(-0.5)", "-0.5"}, {"N", "0.999", "0.999"}, {"N", "(-0.25)", "-0.25"}, {"N", "(1 / 3)", ""},
+		{"N", "(-1)", "-1"}, {"N", "2", "2"}, {"N", "3", "3"}, {"N", "(-2)", "-2"}, {"N", "1.5", "1.5"},
+		{"N", "1000000000000000000", "1000000000000000000"}, {"N", "9223372036854775807", "9223372036854775807"},
+		{"N", "9223372036854775808", "9223372036854775808"}, {"N", "(-9223372036854775808)", "-9223372036854775808"},
+		{"N", "99999999999999999999", "99999999999999999999"}, {"N", "4294967296", "4294967296"}, {"N", "2147483648", "2147483648"},
+		{"N", "(-2147483649)", "-2147483649"}, {"N", "65536", "65536"}, {"N", "65537", "65537"}, {"N", "(-65536)", "-65536"}, {"N", "(-65537)", "-65537"},
+		{"N", "1048577", "1048577"}, {"N", "num('-1e300')", "-1e300"}, {"N", "num('-inf')", ""}, {"N", "(num('1e308') * 10)", ""},
+		{"N", "(num('1e308') * 10 - num('1e308') * 10)", ""}, {"N", "num('1e19')", "1e19"}, {"N", "(0 * -1)", ""},
+		{"S", "'0.5'", `"0.5"`}, {"S", "'0.3'", `"0.3"`}, {"S", "'-0.9'", `"-0.9"`}, {"S", "'nan'", `"nan"`}, {"S", "'NaN'", `"NaN"`}, {"S", "'inf'", `"inf"`},
+		{"S", "'-Inf'", `"-Inf"`}, {"S", "'1e400'", `"1e400"`}, {"S", "'%'", `"%"`}, {"S", "'%s'", `"%s"`}, {"S", "'%5'", `"%5"`}, {"S", "'%v%v'", `"%v%v"`},
+		{"S", "'%-'", `"%-"`}, {"S", "'a,b'", `"a,b"`}, {"S", "','", `","`}, {"S", "'k'", `"k"`}, {"S", "'length'", `"length"`}, {"S", "'push'", `"push"`},
+		{"S", "'[a'", `"[a"`}, {"S", "'a*'", `"a*"`}, {"S", "'-'", `"-"`}, {"S", "'65537'", `"65537"`}, {"S", "'-65536'", `"-65536"`},
+		{"S", "L()", ""}, // 65536 characters, built by a program function
+		{"A", "[0.5, -1, null]", `[0.5,-1,null]`}, {"A", "[[1, [2]], {a: {b: []}}]", `[[1,[2]],{"a":{"b":[]}}]`}, {"A", "[[], []]", `[[],[]]`},
+		{"A", "[3, 1, 2]", `[3,1,2]`}, {"A", "['b', 1, null, [2]]", `["b",1,null,[2]]`}, {"A", "[null]", `[null]`}, {"A", "cyc()", ""}, {"A", "big()", ""},
+		{"O", "{a: {b: {c: 1}}, k: [1]}", `{"a":{"b":{"c":1}},"k":[1]}`}, {"O", "{length: 5, push: 1}", `{"length":5,"push":1}`},
+		{"O", "{'': 1, '0': 2, '-1': 3}", `{"":1,"0":2,"-1":3}`}, {"O", "ocyc()", ""},
+		{"R", "/(/", ""}, {"R", "/[a/", ""}, {"R", "/^$/", ""},
+		{"F", "json", ""}, {"F", "num", ""}, {"F", "[1].push", ""}, {"F", "'s'.upper", ""}, {"F", "[].length", ""},
+		{"U", "u.v", ""}, {"U", "u[0]", ""}, {"Z", "[1][5]", ""}, {"Z", "{a: 1}.b.c", ""},
+	}...)
+	return p
+}
+
+const c01EdgeFuncs = "function f() { return 1 }\n" +
+	"function g2(p, q) { p[q] = 1\n return p }\n" +
+	"function L() { s = 'ab'\n for (i = 0; i < 15; i++) s = s + s\n return s }\n" +
+	"function cyc() { a = [1]\n a.push(a)\n return a }\n" +
+	"function ocyc() { o = {k: 1}\n o.self = o\n o.list = [o]\n return o }\n" +
+	"function big() { a = []\n for (i = 0; i < 3000; i++) a.push(i % 7)\n return a }\n"
+
+type c01Op struct {
+	text string // §A §B §C are the operand slots
+	stmt bool   // statements (with their own prints) instead of one expression
+}
+
+func c01EdgeOps() []c01Op {
+	var ops []c01Op
+	e := func(ts ...string) {
+		for _, t := range ts {
+			ops = append(ops, c01Op{t, false})
+		}
+	}
+	s := func(ts ...string) {
+		for _, t := range ts {
+			ops = append(ops, c01Op{t, true})
+		}
+	}
+	for _, op := range c05BinOps {
+		e("§A " + op + " §B")
+	}
+	for _, op := range []string{"+=", "-=", "*=", "/="} {
+		s("x = §A\nx "+op+" §B\nprint x", "§A "+op+" §B\nprint §A", "x = [§A, {k: §A}]\nx[0] "+op+" §B\nx[1].k "+op+" §C\nprint x")
+	}
+	e("§A is number", "§A is unknown", "§A is function", "§A is regex", "§A is §B", "-§A", "+§A", "!§A", "- -§A", "-§A % §B", "§A % -§B",
+		"§A % §B % §C", "§A / §B / §C", "(§A + §B) % §C", "§A * §B - §C", "§A % (§B - §C)", "§A / (§B * §C)", "§A % (§B / §C)",
+		"num(§A) % num(§B)", "§A.floor() % §B.ceil()", "(§A / §B).round()", "(§A * §B).floor()", "num(§A / §B)", "num(§A * §B)",
+		"[1, 2, 3][§A % §B]", "[1, 2, 3][§A / §B]", "[1, 2, 3][num(§A)]", "[1, 2, 3][§A - §B]", "'abc'[§A * §B]", "'abc'[§A % §B]",
+		"§A + §B + §C", "(§A + §B).length()", "(§A + '').split('')", "(§A + '').upper().lower()", "(§A + '')[§B]", "(§A + '').split(§B + '')",
+		"§A < §B == §C", "§A && §B || §C", "!§A == !§B")
+	s("x = §A\nprint x++, x\nprint ++x, x\nprint x--, x\nprint --x, x", "print §A++, §A\nprint --§A, §A", "x = [§A, §B]\nx[0]++\n--x[1]\nx[2]++\nprint x",
+		"x = {k: §A}\nx.k++\nx.j--\nprint x, x.k++ + ++x.k")
+	// index and member reads
+	e("§A[§B]", "§A[§B][§C]", "§A.k", "§A.length", "§A[§B].k", "§A.k[§B]", "§A[0]", "§A[-1]", "§A[§B].length()", "[10, 20, 30][§A]", "'hello'[§A]",
+		"{a: 1, '1': 2}[§A]", "[[1, 2], [3]][§A][§B]", "[§A, §B][§C]", "{k: §A}[§B]", "§A[§A]", "§A[§B[§C]]", "§A.a.b.c", "§A[0][0][0]")
+	// index and member writes (also through missing / unset bases)
+	s("x = §A\nx[§B] = §C\nprint x", "x = §A\nx.k = §B\nprint x", "x = §A\nx[§B].k = §C\nprint x", "x = §A\nx[§B][§C] = 1\nprint x",
+		"x = §A\nx[§B]++\nprint x", "x = §A\nx[§B] += §C\nprint x", "y[§A] = §B\nprint y", "y[§A][§B] = §C\nprint y", "y.k[§A] = §B\nprint y",
+		"x = [1, 2, 3]\nx[§A] = §B\nprint x.length(), x[0], x[§A]", "x = 'str'\nx[§A] = §B\nprint x", "x = {a: 1}\nx[§A] = §B\nprint x",
+		"§A[§B] = §C\nprint §A", "§A.k = §B\nprint §A", "§A.k.j[§B] = §C\nprint §A", "x = [[1], [2]]\nx[§A][§B] = §C\nprint x",
+		"x = §A\nx[0] = x\nprint x", "x = §A\nx.me = x\nprint x\nprint json(x)", "x = §A\ny = x\ny[§B] = §C\nprint x, y")
+	// methods: every method on every receiver, right and wrong argument counts
+	e("§A.length()", "§A.push(§B)", "§A.pop()", "§A.popfirst()", "§A.contains(§B)", "§A.sort()", "§A.pluck(§B)", "§A.pluck(§B, §C)", "§A.pluck()",
+		"§A.split(§B)", "§A.split()", "§A.lower()", "§A.upper()", "§A.floor()", "§A.ceil()", "§A.round()",
+		"§A.push()", "§A.push(§B, §C)", "§A.pop(§B)", "§A.popfirst(§B)", "§A.contains()", "§A.contains(§B, §C)", "§A.length(§B)", "§A.sort(§B)",
+		"§A.floor(§B)", "§A.split(§B, §C)", "§A.upper(§B)", "§A.nosuch(§B)", "§A.k.push(§B)", "§A.sort().pop()", "§A.sort()[§B]",
+		"[3, 1, 2].contains(§A)", "[§A, §B, §C].sort()", "[§A, §B].contains(§C)", "{a: 1, b: 2}.pluck(§A, §B)", "'a,b,,c'.split(§A)",
+		"[§A].pop()", "[§A].popfirst()", "[].pop()", "[].popfirst()", "[[§A], §B].sort()", "[§A, §B].sort().contains(§C)", "{k: §A}.pluck('k', §B).length()",
+		"§A.push(§B).pop()", "§A.push(§A)", "§A.length().floor()", "§A.split(§B).pop()", "§A.split(§B)[§C]")
+	s("x = §A\nx.push(§B)\nx.push(§C)\nprint x.pop(), x.popfirst(), x.pop(), x.pop(), x.popfirst(), x", "x = [§A]\nprint x.popfirst(), x.popfirst(), x.pop(), x, x.length()",
+		"m = §A.push\nprint m(§B)", "§A.length = §B\nprint §A, §A.length", "x = §A\nx.pop = §B\nprint x.pop", "x = [§A, §B, §C]\ny = x.sort()\ny[0] = 'changed'\nprint x, y",
+		"x = §A\nwhile (x.length() > 0 && n < 5) { n++\n print x.popfirst() }\nprint x.pop(), x.popfirst()")
+	// builtins, printf verbs and widths
+	e("num(§A)", "num()", "num(§A, §B)", "json(§A)", "json()", "json(§A, §B)", "json([§A, §B, {k: §C}])", "num(json(§A))", "json(num(§A))",
+		"printf(§A)", "printf(§A, §B)", "printf(§A, §B, §C)", "printf()", "printf('%s|%f|%v|\\n', §A, §B, §C)", "printf('%5s|\\n', §A)", "printf('%-5f|\\n', §A)",
+		"printf('%05v|%-3v|%3v\\n', §A, §B, §C)", "printf('%v %v\\n', §A)", "printf('%s\\n', §A)", "printf('%f\\n', §A)", "printf('%v\\n', §A)", "printf('%012f|%-12f|\\n', §A, §B)",
+		"printf('%' + §A + 'v|\\n', §B)", "printf('%' + §A + 's|\\n', §B)", "printf('%' + §A + 'f|\\n', §B)", "printf('%-' + §A + 'v|\\n', §B)", "printf('%0' + §A + 'v|\\n', §B)",
+		"printf('%' + §A, §B)", "printf('%' + §A + '%', §B)", "printf(§A + '%')", "printf('%5')", "printf('%-')", "printf('%q', §A)", "printf('%' + num(§A) + 'v|\\n', 1)",
+		"printf('%65536v|\\n', §A)", "printf('%-65536s|\\n', §A)", "printf('%65537v|\\n', §A)", "printf('%-65537v|\\n', §A)", "printf('%9223372036854775807v', §A)", "printf('%9223372036854775808v', §A)",
+		"printf('%--5v', §A)", "printf('%-0v|%00v|%0v|\\n', §A, §B, §C)", "printf('%1' + §A, §B)")
+	// calls
+	e("§A()", "§A(§B)", "§A(§B, §C)", "f(§A)", "f(§A, §B, §C)", "g2(§A, §B)", "g2(§A)", "§A.k()", "§A[§B]()", "§A()()")
+	// loops and conditions (all bounded by a counter of their own)
+	s("for (e in §A) { print e\n if (n++ > 5) break }", "for (e, i in §A) { print i, e\n if (n++ > 5) break }", "for (e in [§A, §B, §C]) print e", "for (k, v in {a: §A, b: §B}) print k, v",
+		"for (e in §A[§B]) { print e\n if (n++ > 5) break }", "for (e in §A) { for (e2 in e) { print e2\n if (m++ > 5) break }\n if (n++ > 5) break }",
+		"if (§A) print 'T'; else print 'E'", "w = 0\nwhile (§A && w < 2) w++\nprint w", "for (i = §A; i < §B && k < 3; i++) k++\nprint i, k", "for (i = 0; i < 3 && !§A; i = i + 1) print i",
+		"for (i = 0; i < 3; i = i + 1 / §A) { print i\n if (k++ > 3) break }", "i = §A\nwhile (i % 2 < 1 && k < 3) { k++\n i++ }\nprint i, k")
+	// match: subject, literal patterns, array patterns, bindings
+	e("match (§A) { 0 => 'zero', 'abc' => 's', null => 'nul', true => 't', [] => 'e', [p] => p, [p, q] => q, n => n }", "match (§A) { §B => 1, _ => 2 }",
+		"match ([§A, §B]) { [0, p] => p, [p, null] => p, [[p], q] => q, _ => 'other' }", "match (§A) { /a/ => 1, _ => 0 }", "match (§A) { 1, §B, 3 => 'hit' }",
+		"match (§A) { [[[p]]] => p, [p, [q, [r]]] => r }", "match (§A[§B]) { n => n[§C] }", "match (§A) { n => n % §B }", "match (§A) { [p, q] => p % q, n => 1 % n }")
+	s("match (§A) { n => { n[§B] = §C\nprint n } }\nprint §A", "match (§A) { [p, q] => { p = §B\nq.k = §C\nprint p, q } }\nprint §A")
+	// literals and regex matching
+	e("[§A, §B, §C]", "{k: §A, 'k2': §B}", "[[§A], {k: [§B]}]", "{a: {b: {c: §A}}}.a.b.c", "§A ~ /a/", "'abc' ~ §A", "§A ~ '(' + §B", "§A ~ §B + '*'", "§A !~ '^' + §B + '$'")
+	// the root
+	s("$ = §A\nprint $", "$.k = §A\nprint $", "$[§A] = §B\nprint $", "print $[§A], $.k[§B]", "$[§A] += §B\nprint $", "print $index % §A, $index / §A", "$ = [§A]\n$[0][§B] = §C\nprint")
+	return ops
+}
+
+var c01EdgeContexts = []string{"BEGIN", "END", "BEGINFILE", "rule-body", "rule-pattern", "function-body", "function-from-rule", "match-body", "loop-body", "selector"}
+
+// c01EdgeCase builds one case: op with the given operands in context ctx.
+// mode: inline | vars | fields | params
+func c01EdgeCase(r *rand.Rand, op c01Op, a [3]opnd, ctx, mode string) Case {
+	isSel := ctx == "selector"
+	isFn := strings.HasPrefix(ctx, "function")
+	hasDoc := ctx != "BEGIN" && ctx != "match-body" && ctx != "loop-body" && ctx != "function-body"
+	used := []bool{strings.Contains(op.text, "§A"), strings.Contains(op.text, "§B"), strings.Contains(op.text, "§C")}
+	if mode == "fields" {
+		ok := hasDoc && ctx != "END"
+		for i := range a {
+			if used[i] && a[i].json == "" {
+				ok = false
+			}
+		}
+		if !ok {
+			mode = "inline"
+		}
+	}
+	if mode == "params" && !isFn {
+		mode = "vars"
+	}
+	exprCtx := ctx == "rule-pattern" || isSel
+	if mode == "vars" && exprCtx && !op.stmt {
+		mode = "inline"
+	}
+	slot := [3]string{}
+	var pre []string
+	for i := range a {
+		switch mode {
+		case "inline", "params":
+			slot[i] = a[i].expr
+			if mode == "params" {
+				slot[i] = "p" + string(rune('a'+i))
+			}
+		case "vars":
+			slot[i] = a[i].expr
+			if used[i] && a[i].kind != "F" && a[i].kind != "U" {
+				slot[i] = "v" + string(rune('a'+i))
+				pre = append(pre, slot[i]+" = "+a[i].expr)
+			}
+		case "fields":
+			slot[i] = "$." + string(rune('a'+i))
+		}
+	}
+	text := strings.NewReplacer("§A", slot[0], "§B", slot[1], "§C", slot[2]).Replace(op.text)
+	body := text
+	if !op.stmt {
+		switch r.Intn(3) {
+		case 0:
+			body = "r = " + text + "\nprint r, r is number, r is string"
+		case 1:
+			body = "print " + text
+		default:
+			body = "r = [" + text + "]\nprint r"
+		}
+	}
+	if len(pre) > 0 {
+		body = strings.Join(pre, "\n") + "\n" + body
+	}
+	doc := pick(r, []string{`[1, [2], {"k": 3}]`, `{"k": [1, 2], "a": {"b": 1}}`, `[0.5]`, `7`, `[]`, `"str"`})
+	if mode == "fields" {
+		var ms []string
+		for i := range a {
+			if used[i] {
+				ms = append(ms, fmt.Sprintf(`"%c": %s`, 'a'+i, a[i].json))
+			}
+		}
+		doc = "{" + strings.Join(ms, ", ") + "}"
+		if chance(r, 0.3) && !isSel {
+			doc = "[" + doc + "]"
+		}
+	}
+	var prog string
+	var sels []string
+	var files []File
+	if hasDoc {
+		files = []File{{Name: "in.json", Data: []byte(doc)}}
+	}
+	args := a[0].expr + ", " + a[1].expr + ", " + a[2].expr
+	switch ctx {
+	case "BEGIN":
+		prog = "BEGIN {\n" + body + "\n}\nEND { print \"end\" }\n"
+	case "END":
+		prog = "{ seen++ }\nEND {\n" + body + "\nprint \"end\", seen\n}\n"
+	case "BEGINFILE":
+		prog = "BEGINFILE {\n" + body + "\n}\n{ print \"R\", $ }\n"
+	case "rule-body":
+		prog = "{\n" + body + "\n}\nEND { print \"end\" }\n"
+	case "rule-pattern":
+		if op.stmt {
+			prog = c01M(body) + " == null { print \"hit\", $index }\n{ print \"second rule\" }\n"
+		} else {
+			prog = text + " { print \"hit\", $index }\n{ print \"second rule\" }\n"
+		}
+	case "function-body", "function-from-rule":
+		ret := "return r"
+		if op.stmt {
+			ret = "return x"
+		}
+		prog = "function t(pa, pb, pc) {\n" + body + "\n" + ret + "\n}\n"
+		call := "t(" + args + ")"
+		if mode != "params" {
+			call = "t()"
+		}
+		if ctx == "function-body" {
+			prog += "BEGIN { print " + call + "\nprint pa is unknown }\n"
+		} else {
+			prog += "{ print " + call + " }\n" + call + " { print \"pattern\" }\n"
+		}
+	case "match-body":
+		if op.stmt {
+			prog = "BEGIN {\nmatch (1) { 2 => 0, _ => {\n" + body + "\n} }\nprint \"after\"\n}\n"
+		} else {
+			p := strings.Join(pre, "\n")
+			prog = "BEGIN {\n" + p + "\nprint match (1) { 2 => 0, _ => " + text + " }\nprint match (" + text + ") { v => v }\n}\n"
+		}
+	case "loop-body":
+		prog = "BEGIN {\nfor (it = 0; it < 2; it++) {\n" + body + "\n}\nprint \"after\", it\n}\n"
+	case "selector":
+		prog = "{ print \"R\", $ }\n"
+		if op.stmt {
+			sels = []string{c01M(body)}
+		} else {
+			sels = []string{text}
+		}
+		if chance(r, 0.3) {
+			sels = append(sels, "$")
+		}
+	}
+	if !isSel {
+		prog = c01EdgeFuncs + prog
+	}
+	fields, wantJSON := c01Fields, hasDoc && chance(r, 0.3)
+	if wantJSON {
+		fields = c01FieldsJSON
+	}
+	meta := metaProg(prog, "operation", op.text, "operands", a[0].expr+" | "+a[1].expr+" | "+a[2].expr, "context", ctx, "operand-mode", mode,
+		"row", strings.Fields(strings.NewReplacer("§A", "A", "§B", "B", "§C", "C", "\n", " ; ").Replace(op.text) + " x")[0], "col", ctx)
+	if hasDoc {
+		meta["input"] = short(doc)
+	}
+	if len(sels) > 0 {
+		meta["selectors"] = strings.Join(sels, "  ||  ")
+	}
+	return Case{Req: RunReq(prog, sels, files, wantJSON), Fields: fields, Meta: meta, Oracle: c01ClassOracle,
+		NonTrivial: func(i Resp) bool { return i["class"] != "syntax" }}
+}
+
+func c01GenEdgeOps(r *rand.Rand, tier string, emit func(Case)) {
+	pool := c01EdgePool()
+	ops := c01EdgeOps()
+	modes := []string{"inline", "vars", "fields", "params"}
+	// operands that need the program's functions cannot be written in a selector
+	selOK := func(o opnd) bool {
+		return !strings.Contains(o.expr, "()") || strings.HasPrefix(o.expr, "(")
+	}
+	// operands whose cases are slow (64 KiB strings and paddings, 3000-element arrays): a small share in the quick tier
+	heavy := func(o opnd) bool {
+		return strings.Contains(o.expr, "L()") || strings.Contains(o.expr, "big()") || strings.Contains(o.expr, "6553")
+	}
+	pickOp := func(ctx string) opnd {
+		for {
+			o := pick(r, pool)
+			if heavy(o) && tier != "thorough" && !chance(r, 0.15) {
+				continue
+			}
+			if ctx != "selector" || selOK(o) {
+				return o
+			}
+		}
+	}
+	one := func(op c01Op, fixed int, o opnd, ctx string) {
+		if ctx == "selector" && (!selOK(o) || strings.Contains(op.text, "f(") || strings.Contains(op.text, "g2(")) {
+			ctx = "rule-body"
+		}
+		a := [3]opnd{pickOp(ctx), pickOp(ctx), pickOp(ctx)}
+		if fixed >= 0 {
+			a[fixed] = o
+		}
+		emit(c01EdgeCase(r, op, a, ctx, pick(r, modes)))
+	}
+	// systematic: every operation x every slot x every pool operand (the other slots random), contexts in rotation
+	k := 0
+	for _, op := range ops {
+		for si, s := range []string{"§A", "§B", "§C"} {
+			if !strings.Contains(op.text, s) {
+				continue
+			}
+			for _, o := range pool {
+				if tier != "thorough" {
+					p := []float64{0.5, 0.5, 0.2}[si]
+					if heavy(o) {
+						p *= 0.3
+					}
+					if !chance(r, p) {
+						continue
+					}
+				}
+				one(op, si, o, c01EdgeContexts[k%len(c01EdgeContexts)])
+				k++
+			}
+		}
+		// every operation in every context at least once
+		for _, ctx := range c01EdgeContexts {
+			one(op, -1, opnd{}, ctx)
+		}
+	}
+	// random combinations
+	n := tierN(tier, 6000, 250000)
+	for i := 0; i < n; i++ {
+		one(pick(r, ops), -1, opnd{}, pick(r, c01EdgeContexts))
+	}
+}
+
 func init() {
 	register(Family{Name: "control-placement", Prop: "C01",
 		Rule: "grammar-directed multi-rule programs (two marker rules of every kind) with one of next/exit/return/break/continue (or a harmless print) wrapped by 1-4 of ~60 wrappers (blocks, if, match bodies in block and expression form, bodies of while/for/for-in, loop HEADERS via match blocks: while condition, the three for clauses, for-in iterable, ~38 expression hosts, functions) placed in BEGIN/END/BEGINFILE/ENDFILE, rule bodies, rule patterns (match block, bare, function) and -r selectors; every context x control x wrapper once, ill-scoped placements also repaired by an enabling loop body/function outside and inside, plus random nestings; inputs none/array/object/scalars/JSONL/several files/empty/malformed/truncated/read failure. Oracle: class in ok|syntax|runtime|json; statically well-scoped => not a syntax error, ill-scoped => syntax error and no output. Non-trivial = program ran (or was rejected as predicted).",
@@ -1172,6 +1516,9 @@ func init() {
 	register(Family{Name: "arbitrary-bytes", Prop: "C01",
 		Rule: "random byte strings (4 distributions: all 256 values, printable, punctuation-heavy, mixed with high bytes; size 0-200, thorough also 1000-65536 and 64 KiB deep nestings, implementation only from 4 KiB), random bytes after a valid prefix, token soup over the jqawk alphabet without while/for/function (cannot loop), structured soup inside valid skeletons, valid programs with non-ASCII bytes in identifiers/strings/comments/keys. Every distinct text counts.",
 		Gen:  c01GenBytes})
+	register(Family{Name: "panic-prone-operations", Prop: "C01",
+		Rule: "every operator (15 binary, unary, ++/--, compound assignment, is), index/member read and write form (also through missing and unset bases), method (right and wrong argument counts, detached, shadowed), builtin, printf verb and width form (widths built from operands, the 65536 limit, int64 overflow), call form, loop header, match form (subject, literal/array patterns, bindings), literal, regex match and root assignment, applied to an edge-operand pool (C05's pool plus fractions in (-1,1), +-0, int32/int64/fill/width limits, +-1e300, NaN and +-Inf as literals' computations and num() produce them, numeric-looking and format-looking strings, a 65536-character string, nested / cyclic / 3000-element containers, objects shadowing method names, invalid regexes, bound methods, missing members) supplied inline, through variables, through document fields and through parameters, in BEGIN, END, BEGINFILE, rule bodies, rule patterns, function bodies (called from BEGIN, rule bodies and patterns), match bodies and subjects, loop bodies and -r selectors; every operation x slot x operand (thorough: all; quick: half of them, a fifth for third slots, fewer for the slow 64 KiB operands) plus random combinations. Oracle: class in ok|syntax|runtime|json (a Go panic is class panic); model comparison on class,out(,json). Non-trivial = not a syntax error.",
+		Gen:  c01GenEdgeOps})
 	register(Family{Name: "selectors", Prop: "C01",
 		Rule: "-r selectors from five pools (valid, function/native/regex-valued, syntax error, runtime error, control flow via match blocks: next/exit/print/loops) alone on 7 input shapes and in random lists of 1-3 with 6 programs and all inputs",
 		Gen:  c01GenSelectors})
